@@ -19,3 +19,37 @@ fn probe_cleared_config_handle_is_refused() {
     let st = mla_archive_new(&raw mut cfg, Some(p_wcb), Some(p_fcb), null_mut(), &raw mut out2);
     assert!(matches!(st, MLAStatus::BadAPIArgument));
 }
+
+const P_PUBKEY: &[u8] = b"-----BEGIN PUBLIC KEY-----\nMCowBQYDK2VuAyEA6vyETDlD7EgGB/6frXjOAmRzpGsYJnwbRfeQl5RGvjc=\n-----END PUBLIC KEY-----\n\0";
+
+fn p_new_archive() -> MLAArchiveHandle {
+    let mut cfg: MLAConfigHandle = null_mut();
+    assert!(matches!(mla_config_default_new(&raw mut cfg), MLAStatus::Success));
+    assert!(matches!(mla_config_add_public_keys(cfg, P_PUBKEY.as_ptr().cast()), MLAStatus::Success));
+    let mut out: MLAArchiveHandle = null_mut();
+    assert!(matches!(mla_archive_new(&raw mut cfg, Some(p_wcb), Some(p_fcb), null_mut(), &raw mut out), MLAStatus::Success));
+    assert!(!out.is_null());
+    out
+}
+
+/// C20: mla_archive_close releases the archive whatever `finalize` answers; the caller's handle must be cleared on every such
+/// path (here: close refused because a file is still open), and a second use is an error status, not a use of freed memory
+#[test]
+fn probe_close_clears_handle_when_finalize_fails() {
+    let mut ar = p_new_archive();
+    let mut f: MLAArchiveFileHandle = null_mut();
+    assert!(matches!(mla_archive_file_new(ar, b"name\0".as_ptr().cast(), &raw mut f), MLAStatus::Success));
+    let st = mla_archive_close(&raw mut ar);
+    assert!(!matches!(st, MLAStatus::Success), "closing with a file still open is refused");
+    assert!(ar.is_null(), "archive released by mla_archive_close but the caller's handle was not cleared");
+    assert!(matches!(mla_archive_close(&raw mut ar), MLAStatus::BadAPIArgument));
+    // file handle: cleared by file_close on every outcome as well
+    let mut ar2 = p_new_archive();
+    let mut f2: MLAArchiveFileHandle = null_mut();
+    assert!(matches!(mla_archive_file_new(ar2, b"n\0".as_ptr().cast(), &raw mut f2), MLAStatus::Success));
+    assert!(matches!(mla_archive_file_close(ar2, &raw mut f2), MLAStatus::Success));
+    assert!(f2.is_null());
+    assert!(matches!(mla_archive_file_close(ar2, &raw mut f2), MLAStatus::BadAPIArgument));
+    assert!(matches!(mla_archive_close(&raw mut ar2), MLAStatus::Success));
+    assert!(ar2.is_null());
+}
